@@ -10,6 +10,6 @@ for p in $LIST; do
   timeout $LIM ./check $p --tier thorough > out/thorough_$p.log 2>&1
   rc=$?
   t1=$(date +%s)
-  [ $rc -eq 124 ] && { pkill -f "gosym .*$(pwd)/out/$p/" 2>/dev/null; echo "$p TIMEOUT after ${LIM}s"; continue; }
+  [ $rc -eq 124 ] && { echo "$p TIMEOUT after ${LIM}s"; continue; }
   echo "$p exit=$rc wall=$((t1-t0))s $(grep -c '^KNOWN-FINDING' out/thorough_$p.log) known $(tail -1 out/thorough_$p.log | cut -c1-160)"
 done
